@@ -8,6 +8,7 @@ from . import algos_sched as sched
 from . import algos_flow as flow
 from . import core_ops as ops
 from . import backtest_run as btr
+from . import algos_select as sel
 
 UPD = [("date", "date"), ("data", "none"), ("inow", "optint")]
 
@@ -55,6 +56,10 @@ def build():
     verifiers.pop("bt.algos.RunPeriod.compare_dates")
     for c, v in flow.contracts():
         reg(c, v)
+    for c, v in sel.contracts():
+        reg(c, v)
+        if v is None:
+            verifiers.pop(c.qualname)
     for c, v in btr.contracts():
         reg(c, v)
         if v is None:
